@@ -49,6 +49,11 @@ def entry_states(E, c, ci, self_cls):
                 tc = E.type_constraint(v)
                 if tc is not None:
                     st.pc = st.pc + (tc,)
+        for v in env.values():
+            if v.kind.tag == "iter":
+                from . import pymodel
+                st.pc = st.pc + (z3.And(pymodel.iter_pos(E, st, v) >= 0,
+                                        pymodel.iter_pos(E, st, v) <= z3.Length(pymodel.iter_seq(E, st, v))),)
         st.env = env
         # the entry heap is well-typed: reference fields of the parameter objects (two levels deep)
         # hold valid, correctly typed references
@@ -276,6 +281,8 @@ def _check_frame(E, c, mods, fr, prop, fname, st, env, entry, kindname):
             for k in ks:
                 for key, _srt in E.field_keys(node.attr, k):
                     allowed.setdefault(key, []).append(base.t)
+        elif isinstance(node, ast.Call) and node.func.id == "ITER":
+            continue
         elif isinstance(node, ast.Call) and node.func.id == "items":
             base = E.spec_value(node.args[0], entry, env, entry)
             if base.kind.tag == "list":
